@@ -34,8 +34,8 @@ Definition two_regexes (a b : list nat) (alpha : option (list nat))
 (* the union NFA of the two compiled expressions, over the united alphabet *)
 Definition union_nfa (sa : list nat) (ra : re) (sb : list nat) (rb : re) : nfa :=
   let (A, c1) := build sa ra 0 in
-  let (B, c2) := build sb rb c1 in
-  nfa_of (set_union sa sb) (fst (f_union A B c2)).
+  let (B, c2) := build sb rb 0 in
+  nfa_of (set_of (sa ++ sb)) (fst (f_union A (shiftf c1 B) (c1 + c2))).   (* B renamed apart *)
 
 Definition isequal (a b : list nat) (alpha : option (list nat)) : res bool :=
   bind (two_regexes a b alpha) (fun p =>
